@@ -662,7 +662,8 @@ pub fn judge_c14(cx: &DeliveryCtx, out: &mut RunOut) {
     if let Some(ctl) = cx.control {
         out.probe("control_twin_compared");
         let sig = |o: &ValOut| match o {
-            ValOut::Ok(r) => format!("Ok {:?} {}", r.principal, r.parts.uri),
+            // (what is returned on success is C15's and C18's matter; here only who was authenticated)
+            ValOut::Ok(r) => format!("Ok {:?}", r.principal),
             // kind, status and message *class*: the text may name another of several offending
             // headers depending on hash order (DESIGN §4 C18), and pass-through of provider texts
             // is asserted by its own clause
